@@ -61,10 +61,16 @@ def rename_with_keywords(rng, schema):
             a[0] = amap.get((c['kind'], a[0]), a[0])
     for u in schema['uniques']:
         u['attrs'] = [amap.get((u['kind'], n), n) for n in u['attrs']]
+        if u.get('attrs_as'):
+            u['attrs_as'] = [n.swapcase() for n in u['attrs']]
         u['kind'] = kmap.get(u['kind'], u['kind'])
     for a in schema['assocs']:
         a['src_keys'] = [amap.get((a['src'], n), n) for n in a['src_keys']]
         a['tgt_keys'] = [amap.get((a['tgt'], n), n) for n in a['tgt_keys']]
+        if a.get('src_keys_as'):
+            a['src_keys_as'] = [n.swapcase() for n in a['src_keys']]
+        if a.get('tgt_keys_as'):
+            a['tgt_keys_as'] = [n.swapcase() for n in a['tgt_keys']]
         a['src'] = kmap.get(a['src'], a['src'])
         a['tgt'] = kmap.get(a['tgt'], a['tgt'])
     for c in schema['classes']:
